@@ -2,16 +2,15 @@
 
    Two readings of the same generic definitions:
    * NumR  (reals): the pairwise summation is the plain sum; midpoints; the centroid.
-   * NumRN (reals + NaN, `option R`, defined here): Bisector and the three maxima defuzzifiers mask the sample
-     points with NaN (`np.where(mask, x, nan)` followed by `nanmean / nanmax / nanmin`), which NumR cannot read
-     (there `nan = 0` and `isnan _ = false`).  NumRN has exact real arithmetic on `Some _`, IEEE behaviour of NaN
-     (`None`): arithmetic propagates it, comparisons with it are false, `nmin/nmax` propagate it, `fmax_/fmin_`
-     ignore it.  It has NO infinities: `x / 0 = NaN` for every x.  IEEE gives NaN only for 0/0; for memberships
-     >= 0 every zero denominator of the five defuzzifiers comes with a zero numerator
-     (lemmas `Rsum_nonneg_zero`, `dot_zero_of_zeros`, `psums_all_zero`, and count = 0 -> the masked sum is 0),
-     so on the property's domain the two agree. *)
+   * NumER (reals + inf + NaN, Num/NumER.v): all five defuzzifiers.  Bisector and the three maxima defuzzifiers mask
+     the sample points with NaN (`np.where(mask, x, nan)` followed by `nanmean / nanmax / nanmin`), which NumR
+     cannot read (there `nan = 0` and `isnan _ = false`).
+   The value a defuzzifier returns on real samples is described by a function of the reals only
+   (`defuzz_value : ... -> option R`, None = NaN); `toER` embeds it in ER.  For memberships >= 0 every zero
+   denominator of the five defuzzifiers comes with a zero numerator (lemmas `Rsum_nonneg_zero`, `dot_zero_of_zeros`,
+   `psums_all_zero`, and count = 0 -> the masked sum is 0), so every x/0 that occurs is 0/0 = NaN, never an infinity. *)
 From Coq Require Import ZArith Reals Bool List Lra Lia Psatz.
-From VF Require Import Num NumR Core NpSum Defuzz.
+From VF Require Import Num NumR NumER Core NpSum Defuzz.
 Import ListNotations.
 Local Open Scope R_scope.
 
@@ -228,42 +227,34 @@ Proof.
 Qed.
 
 (* ------------------------------------------------------------------------------------------------ *)
-(* NumRN: exact reals + NaN                                                                          *)
+(* NumER: reals + infinities + NaN                                                                   *)
 
-Definition RN : Type := option R.
-Definition lift1 (f : R -> R) (a : RN) : RN := match a with Some x => Some (f x) | None => None end.
-Definition lift2 (f : R -> R -> R) (a b : RN) : RN :=
-  match a, b with Some x, Some y => Some (f x y) | _, _ => None end.
-Definition RNdiv (a b : RN) : RN :=
-  match a, b with Some x, Some y => if Req_EM_T y 0 then None else Some (x / y) | _, _ => None end.
-Definition RNsqrt (a : RN) : RN :=
-  match a with Some x => if Rlt_dec x 0 then None else Some (sqrt x) | None => None end.
-Definition RNcmp (f : R -> R -> bool) (a b : RN) : bool :=
-  match a, b with Some x, Some y => f x y | _, _ => false end.
-Definition RNisnan (a : RN) : bool := match a with Some _ => false | None => true end.
+Definition lift1 (f : R -> R) (a : option R) : option R := match a with Some x => Some (f x) | None => None end.
+(* a specification-level value (None = NaN) read in ER *)
+Definition toER (o : option R) : ER := match o with Some z => Fin z | None => NaN end.
 
-#[export] Instance NumRN : Num RN := {
-  lit := fun m e => Some (Rlit m e); nan := None; pinf := None; ninf := None; npi := Some PI;
-  add := lift2 Rplus; sub := lift2 Rminus; mul := lift2 Rmult; div := RNdiv;
-  neg := lift1 Ropp; nabs := lift1 Rabs; nsqrt := RNsqrt;
-  square := lift1 (fun x => x * x); spow2 := lift1 (fun x => x * x); pypow2 := lift1 (fun x => x * x);
-  nmin := lift2 Rmin; nmax := lift2 Rmax;
-  ltb := RNcmp Rltb; leb := RNcmp Rleb; eqb := RNcmp Reqb;
-  isnan := RNisnan; isfinite := fun a => negb (RNisnan a);
-  isposinf := fun _ => false; isneginf := fun _ => false;
-  fexp := lift1 exp; flog := lift1 ln; fcos := lift1 cos; fpow := lift2 Rpow
-}.
+Lemma toER_Fin o z : toER o = Fin z <-> o = Some z.
+Proof. destruct o; simpl; split; intros H; try discriminate; congruence. Qed.
+Lemma toER_NaN o : toER o = NaN <-> o = None.
+Proof. destruct o; simpl; split; intros H; try discriminate; reflexivity. Qed.
 
-Ltac unRN :=
-  cbv [zero one b2f where_ gtb geb neqb pymin pymax
-       lit nan pinf ninf npi add sub mul div neg nabs nsqrt square spow2 pypow2
-       nmin nmax ltb leb eqb isnan isfinite isposinf isneginf fexp flog fcos fpow NumRN
-       lift1 lift2 RNdiv RNcmp RNisnan] in *.
+Definition V (l : list R) : list ER := map Fin l.     (* a vector of real samples read in ER *)
 
-Definition V (l : list R) : list RN := map Some l.     (* a vector of real samples read in RN *)
+(* a membership function on the reals, read in ER (a membership function is not asked about inf / NaN here) *)
+Definition liftf (mu : R -> R) (a : ER) : ER := match a with Fin x => Fin (mu x) | _ => NaN end.
 
-(* a membership function on the reals, read in RN *)
-Definition liftf (mu : R -> R) : RN -> RN := lift1 mu.
+Lemma Rsgn_0 : Rsgn 0 = Eq.
+Proof. unfold Rsgn. destruct (Rlt_dec 0 0); [lra | reflexivity]. Qed.
+Lemma ERdiv_0_0 : ERdiv (Fin 0) (Fin 0) = NaN.
+Proof. unfold ERdiv. destruct (Req_EM_T 0 0); [rewrite Rsgn_0; reflexivity | contradiction]. Qed.
+Lemma ERmin_fin a x : ERmin (Fin a) (Fin x) = Fin (Rmin a x).
+Proof.
+  unfold ERmin, Rmin. cbn. destruct (Rltb_spec x a); destruct (Rle_dec a x); try reflexivity; [exfalso; lra | f_equal; lra].
+Qed.
+Lemma ERmax_fin a x : ERmax (Fin a) (Fin x) = Fin (Rmax a x).
+Proof.
+  unfold ERmax, Rmax. cbn. destruct (Rltb_spec a x); destruct (Rle_dec a x); try reflexivity; [exfalso; lra | f_equal; lra].
+Qed.
 
 Lemma V_length l : length (V l) = length l.
 Proof. apply map_length. Qed.
@@ -320,56 +311,56 @@ Section Hom.
   Proof. unfold np_sum. rewrite map_length, pw_sum_hom, <- phi_zero, <- phi_add. reflexivity. Qed.
 End Hom.
 
-Lemma np_sum_V l : np_sum (N:=NumRN) (V l) = Some (Rsum l).
+Lemma np_sum_V l : np_sum (N:=NumER) (V l) = Fin (Rsum l).
 Proof.
-  unfold V. rewrite (np_sum_hom NumR NumRN Some) by reflexivity. rewrite np_sum_R. reflexivity.
+  unfold V. rewrite (np_sum_hom NumR NumER Fin) by reflexivity. rewrite np_sum_R. reflexivity.
 Qed.
 
 (* ------------------------------------------------------------------------------------------------ *)
-(* NumRN: the building blocks on vectors of reals                                                    *)
+(* NumER: the building blocks on vectors of reals                                                    *)
 
-Lemma of_nat_RN n : of_nat (N:=NumRN) n = Some (INR n).
-Proof. exact (f_equal Some (of_nat_R n)). Qed.
+Lemma of_nat_ER n : of_nat (N:=NumER) n = Fin (INR n).
+Proof. exact (f_equal Fin (of_nat_R n)). Qed.
 
-Lemma half_RN : half (N:=NumRN) = Some (1 / 2).
-Proof. exact (f_equal Some half_R). Qed.
+Lemma half_ER : half (N:=NumER) = Fin (1 / 2).
+Proof. exact (f_equal Fin half_R). Qed.
 
-Lemma midpoint_RN lo hi r i : (0 < r)%nat ->
-  midpoint (N:=NumRN) (Some lo) (Some hi) r i = Some (Rmidpoint lo hi r i).
+Lemma midpoint_ER lo hi r i : (0 < r)%nat ->
+  midpoint (N:=NumER) (Fin lo) (Fin hi) r i = Fin (Rmidpoint lo hi r i).
 Proof.
-  intros Hr. unfold midpoint. rewrite !of_nat_RN, half_RN. unRN.
+  intros Hr. unfold midpoint. rewrite !of_nat_ER, half_ER. unER. cbn [ERsub ERneg ERadd ERdiv].
   destruct (Req_EM_T (INR r) 0) as [E|_]; [|reflexivity].
   exfalso. apply (not_0_INR r); [lia | exact E].
 Qed.
 
-Theorem midpoints_RN lo hi r : (0 < r)%nat ->
-  midpoints (N:=NumRN) (Some lo) (Some hi) r = Ok (V (Rmidpoints lo hi r)).
+Theorem midpoints_ER lo hi r : (0 < r)%nat ->
+  midpoints (N:=NumER) (Fin lo) (Fin hi) r = Ok (V (Rmidpoints lo hi r)).
 Proof.
   intros Hr. unfold midpoints. destruct r as [|r]; [lia|]. cbn [Nat.eqb].
   unfold midpoints_list, Rmidpoints, V. rewrite map_map. f_equal. apply map_ext.
-  intros i. apply midpoint_RN. lia.
+  intros i. apply midpoint_ER. lia.
 Qed.
 
 Lemma midpoints_zero_resolution {T} {N : Num T} (lo hi : T) : midpoints lo hi 0 = Err EInternal.
 Proof. reflexivity. Qed.
 
-Lemma map_nan0_V l : map (nan0 (N:=NumRN)) (V l) = V l.
+Lemma map_nan0_V l : map (nan0 (N:=NumER)) (V l) = V l.
 Proof. unfold V. rewrite map_map. reflexivity. Qed.
 
 Lemma map_liftf_V mu l : map (liftf mu) (V l) = V (map mu l).
 Proof. unfold V. rewrite !map_map. reflexivity. Qed.
 
-Lemma map2_mul_V xs ys : map2 (mul (Num:=NumRN)) (V xs) (V ys) = V (map2 Rmult xs ys).
+Lemma map2_mul_V xs ys : map2 (mul (Num:=NumER)) (V xs) (V ys) = V (map2 Rmult xs ys).
 Proof.
   revert ys. induction xs as [|x xs IH]; intros [|y ys]; try reflexivity.
   cbn [V map map2]. f_equal. apply IH.
 Qed.
 
 (* -------- cumulative sums *)
-Lemma cumsum_from_V l : forall acc, cumsum_from (N:=NumRN) (Some acc) (V l) = V (psums acc l).
+Lemma cumsum_from_V l : forall acc, cumsum_from (N:=NumER) (Fin acc) (V l) = V (psums acc l).
 Proof. induction l as [|x l IH]; intros acc; [reflexivity|]. cbn [V map cumsum_from psums]. f_equal. apply IH. Qed.
 
-Lemma nancumsum_V l : nancumsum (N:=NumRN) (V l) = V (psums 0 l).
+Lemma nancumsum_V l : nancumsum (N:=NumER) (V l) = V (psums 0 l).
 Proof.
   unfold nancumsum. rewrite map_nan0_V. destruct l as [|x l]; [reflexivity|].
   cbn [V map cumsum psums]. rewrite Rplus_0_l. f_equal. apply cumsum_from_V.
@@ -379,14 +370,14 @@ Lemma psums_length l : forall acc, length (psums acc l) = length l.
 Proof. induction l as [|x l IH]; intros acc; simpl; [reflexivity | rewrite IH; reflexivity]. Qed.
 
 Lemma last_psums_cons l : forall x acc,
-  last_elem (V (psums acc (x :: l))) = Ok (Some (acc + Rsum (x :: l))).
+  last_elem (V (psums acc (x :: l))) = Ok (Fin (acc + Rsum (x :: l))).
 Proof.
   induction l as [|x' l IH]; intros x acc.
   - simpl. do 2 f_equal. lra.
   - change (last_elem (V (psums acc (x :: x' :: l)))) with (last_elem (V (psums (acc + x) (x' :: l)))).
     rewrite IH. do 2 f_equal. simpl. lra.
 Qed.
-Lemma last_psums l acc : l <> [] -> last_elem (V (psums acc l)) = Ok (Some (acc + Rsum l)).
+Lemma last_psums l acc : l <> [] -> last_elem (V (psums acc l)) = Ok (Fin (acc + Rsum l)).
 Proof. destruct l as [|x l]; [contradiction | intros _; apply last_psums_cons]. Qed.
 
 (* C_i = y_1 + ... + y_i *)
@@ -407,17 +398,23 @@ Proof.
 Qed.
 
 (* -------- NaN-propagating row minimum / maximum *)
-Lemma fold_nmin_V l : forall a, fold_left (nmin (Num:=NumRN)) (V l) (Some a) = Some (Rminl a l).
-Proof. induction l as [|x l IH]; intros a; [reflexivity|]. cbn [V map fold_left]. apply IH. Qed.
-Lemma fold_nmax_V l : forall a, fold_left (nmax (Num:=NumRN)) (V l) (Some a) = Some (Rmaxl a l).
-Proof. induction l as [|x l IH]; intros a; [reflexivity|]. cbn [V map fold_left]. apply IH. Qed.
+Lemma fold_nmin_V l : forall a, fold_left (nmin (Num:=NumER)) (V l) (Fin a) = Fin (Rminl a l).
+Proof.
+  induction l as [|x l IH]; intros a; [reflexivity|]. cbn [V map fold_left].
+  change (nmin (Fin a) (Fin x)) with (ERmin (Fin a) (Fin x)). rewrite ERmin_fin. apply IH.
+Qed.
+Lemma fold_nmax_V l : forall a, fold_left (nmax (Num:=NumER)) (V l) (Fin a) = Fin (Rmaxl a l).
+Proof.
+  induction l as [|x l IH]; intros a; [reflexivity|]. cbn [V map fold_left].
+  change (nmax (Fin a) (Fin x)) with (ERmax (Fin a) (Fin x)). rewrite ERmax_fin. apply IH.
+Qed.
 
-Lemma amin_V a l : amin (N:=NumRN) (V (a :: l)) = Ok (Some (Rminl a l)).
+Lemma amin_V a l : amin (N:=NumER) (V (a :: l)) = Ok (Fin (Rminl a l)).
 Proof. unfold amin, reduce1. cbn [V map]. f_equal. apply fold_nmin_V. Qed.
-Lemma amax_V a l : amax (N:=NumRN) (V (a :: l)) = Ok (Some (Rmaxl a l)).
+Lemma amax_V a l : amax (N:=NumER) (V (a :: l)) = Ok (Fin (Rmaxl a l)).
 Proof. unfold amax, reduce1. cbn [V map]. f_equal. apply fold_nmax_V. Qed.
 
-Lemma fold_nmin_None (l : list RN) : fold_left (nmin (Num:=NumRN)) l None = None.
+Lemma fold_nmin_NaN (l : list ER) : fold_left (nmin (Num:=NumER)) l NaN = NaN.
 Proof. induction l as [|x l IH]; [reflexivity|]. cbn [fold_left]. exact IH. Qed.
 
 Lemma Rmaxl_ge a l : forall y, In y (a :: l) -> y <= Rmaxl a l.
@@ -452,17 +449,17 @@ Proof.
 Qed.
 
 (* -------- np.where(mask, x, nan) and the NaN-ignoring reductions *)
-Definition selV (mask : list bool) (xs : list R) : list RN :=
-  map2 (fun (b : bool) x => if b then Some x else None) mask xs.
+Definition selV (mask : list bool) (xs : list R) : list ER :=
+  map2 (fun (b : bool) x => if b then Fin x else NaN) mask xs.
 
-Lemma select_V mask xs : select (N:=NumRN) mask (V xs) = selV mask xs.
+Lemma select_V mask xs : select (N:=NumER) mask (V xs) = selV mask xs.
 Proof.
   unfold select, selV. revert xs. induction mask as [|b m IH]; intros [|x xs]; try reflexivity.
   cbn [V map map2]. f_equal. apply IH.
 Qed.
 
 Lemma nan0_selV mask : forall xs,
-  map (nan0 (N:=NumRN)) (selV mask xs) = V (map2 (fun (b : bool) x => if b then x else 0) mask xs).
+  map (nan0 (N:=NumER)) (selV mask xs) = V (map2 (fun (b : bool) x => if b then x else 0) mask xs).
 Proof.
   unfold selV. induction mask as [|b m IH]; intros [|x xs]; try reflexivity.
   cbn [V map map2]. rewrite IH. destruct b; reflexivity.
@@ -475,69 +472,85 @@ Proof.
   cbn [map2 pick]. destruct b; simpl; rewrite IH; lra.
 Qed.
 
-Lemma count_selV mask : forall xs, count_notnan (N:=NumRN) (selV mask xs) = length (pick mask xs).
+Lemma count_selV mask : forall xs, count_notnan (N:=NumER) (selV mask xs) = length (pick mask xs).
 Proof.
   unfold count_notnan, selV. induction mask as [|b m IH]; intros [|x xs]; try reflexivity.
   cbn [map2 pick filter]. destruct b; cbn; rewrite IH; reflexivity.
 Qed.
 
-Definition opt_mean (p : list R) : RN := match p with [] => None | _ => Some (Rmean p) end.
-Definition opt_max (p : list R) : RN := match p with [] => None | a :: t => Some (Rmaxl a t) end.
-Definition opt_min (p : list R) : RN := match p with [] => None | a :: t => Some (Rminl a t) end.
+Definition opt_mean (p : list R) : option R := match p with [] => None | a :: t => Some (Rmean (a :: t)) end.
+Definition opt_max (p : list R) : option R := match p with [] => None | a :: t => Some (Rmaxl a t) end.
+Definition opt_min (p : list R) : option R := match p with [] => None | a :: t => Some (Rminl a t) end.
 
 (* nanmean of the masked points = mean of the selected points; NaN (0/0) when nothing is selected *)
-Lemma nanmean_select mask xs : nanmean (N:=NumRN) (select mask (V xs)) = opt_mean (pick mask xs).
+Lemma nanmean_select mask xs : nanmean (N:=NumER) (select mask (V xs)) = toER (opt_mean (pick mask xs)).
 Proof.
-  rewrite select_V. unfold nanmean. rewrite nan0_selV, np_sum_V, Rsum_masked, count_selV, of_nat_RN.
-  unRN. destruct (pick mask xs) as [|a p] eqn:E.
-  - simpl. destruct (Req_EM_T 0 0); [reflexivity | contradiction].
-  - destruct (Req_EM_T (INR (length (a :: p))) 0) as [H|_]; [|reflexivity].
-    exfalso. apply (not_0_INR (length (a :: p))); [simpl; lia | exact H].
+  rewrite select_V. unfold nanmean. rewrite nan0_selV, np_sum_V, Rsum_masked, count_selV, of_nat_ER.
+  change (div (Fin ?a) (Fin ?b)) with (ERdiv (Fin a) (Fin b)).
+  destruct (pick mask xs) as [|a p] eqn:E.
+  - simpl. apply ERdiv_0_0.
+  - rewrite ERdiv_fin; [reflexivity|]. apply not_0_INR. simpl. lia.
 Qed.
 
-Lemma fmax_Some a x : fmax_ (N:=NumRN) (Some a) (Some x) = Some (Rmax a x).
+Lemma fmax_Fin a x : fmax_ (N:=NumER) (Fin a) (Fin x) = Fin (Rmax a x).
 Proof.
-  unfold fmax_. unRN. unfold Rmax. destruct (Rleb_spec x a); destruct (Rle_dec a x); simpl; try reflexivity.
+  unfold fmax_, geb. change (leb (Fin x) (Fin a)) with (ERleb (Fin x) (Fin a)). rewrite ERleb_fin. cbn [isnan NumER ERisnan].
+  unfold Rmax. destruct (Rleb_spec x a); destruct (Rle_dec a x); simpl; try reflexivity.
   - f_equal. lra.
   - exfalso. lra.
 Qed.
-Lemma fmin_Some a x : fmin_ (N:=NumRN) (Some a) (Some x) = Some (Rmin a x).
+Lemma fmin_Fin a x : fmin_ (N:=NumER) (Fin a) (Fin x) = Fin (Rmin a x).
 Proof.
-  unfold fmin_. unRN. unfold Rmin. destruct (Rleb_spec a x); destruct (Rle_dec a x); simpl; try reflexivity; exfalso; lra.
+  unfold fmin_. change (leb (Fin a) (Fin x)) with (ERleb (Fin a) (Fin x)). rewrite ERleb_fin. cbn [isnan NumER ERisnan].
+  unfold Rmin. destruct (Rleb_spec a x); destruct (Rle_dec a x); simpl; try reflexivity; exfalso; lra.
 Qed.
 
-Lemma fold_fmax_selV mask : forall xs acc,
-  fold_left (fmax_ (N:=NumRN)) (selV mask xs) acc =
-  match acc with None => opt_max (pick mask xs) | Some a => Some (Rmaxl a (pick mask xs)) end.
+Lemma fold_fmax_selV_Fin mask : forall xs a,
+  fold_left (fmax_ (N:=NumER)) (selV mask xs) (Fin a) = Fin (Rmaxl a (pick mask xs)).
 Proof.
-  unfold selV. induction mask as [|b m IH]; intros [|x xs] acc; try (destruct acc; reflexivity).
-  cbn [map2 pick fold_left]. rewrite IH. destruct b.
-  - destruct acc as [a|]; [rewrite fmax_Some; reflexivity | reflexivity].
-  - destruct acc as [a|]; reflexivity.
+  unfold selV. induction mask as [|b m IH]; intros [|x xs] a; try reflexivity.
+  cbn [map2 pick fold_left]. destruct b.
+  - rewrite fmax_Fin. apply IH.
+  - change (fmax_ (Fin a) NaN) with (Fin a). apply IH.
 Qed.
-Lemma fold_fmin_selV mask : forall xs acc,
-  fold_left (fmin_ (N:=NumRN)) (selV mask xs) acc =
-  match acc with None => opt_min (pick mask xs) | Some a => Some (Rminl a (pick mask xs)) end.
+Lemma fold_fmax_selV_NaN mask : forall xs,
+  fold_left (fmax_ (N:=NumER)) (selV mask xs) NaN = toER (opt_max (pick mask xs)).
 Proof.
-  unfold selV. induction mask as [|b m IH]; intros [|x xs] acc; try (destruct acc; reflexivity).
-  cbn [map2 pick fold_left]. rewrite IH. destruct b.
-  - destruct acc as [a|]; [rewrite fmin_Some; reflexivity | reflexivity].
-  - destruct acc as [a|]; reflexivity.
+  induction mask as [|b m IH]; intros [|x xs]; try reflexivity.
+  unfold selV. cbn [map2 pick fold_left]. destruct b.
+  - change (fmax_ NaN (Fin x)) with (Fin x). exact (fold_fmax_selV_Fin m xs x).
+  - change (fmax_ NaN NaN) with (@NaN). apply IH.
+Qed.
+Lemma fold_fmin_selV_Fin mask : forall xs a,
+  fold_left (fmin_ (N:=NumER)) (selV mask xs) (Fin a) = Fin (Rminl a (pick mask xs)).
+Proof.
+  unfold selV. induction mask as [|b m IH]; intros [|x xs] a; try reflexivity.
+  cbn [map2 pick fold_left]. destruct b.
+  - rewrite fmin_Fin. apply IH.
+  - change (fmin_ (Fin a) NaN) with (Fin a). apply IH.
+Qed.
+Lemma fold_fmin_selV_NaN mask : forall xs,
+  fold_left (fmin_ (N:=NumER)) (selV mask xs) NaN = toER (opt_min (pick mask xs)).
+Proof.
+  induction mask as [|b m IH]; intros [|x xs]; try reflexivity.
+  unfold selV. cbn [map2 pick fold_left]. destruct b.
+  - change (fmin_ NaN (Fin x)) with (Fin x). exact (fold_fmin_selV_Fin m xs x).
+  - change (fmin_ NaN NaN) with (@NaN). apply IH.
 Qed.
 
 Lemma nanmax_select b m x xs :
-  nanmax (N:=NumRN) (select (b :: m) (V (x :: xs))) = Ok (opt_max (pick (b :: m) (x :: xs))).
+  nanmax (N:=NumER) (select (b :: m) (V (x :: xs))) = Ok (toER (opt_max (pick (b :: m) (x :: xs)))).
 Proof.
   rewrite select_V. unfold nanmax, reduce1, selV. cbn [map2 pick]. f_equal.
-  change (map2 (fun (b0 : bool) x0 => if b0 then Some x0 else None) m xs) with (selV m xs).
-  rewrite fold_fmax_selV. destruct b; reflexivity.
+  change (map2 (fun (b0 : bool) x0 => if b0 then Fin x0 else NaN) m xs) with (selV m xs).
+  destruct b; [rewrite fold_fmax_selV_Fin; reflexivity | apply fold_fmax_selV_NaN].
 Qed.
 Lemma nanmin_select b m x xs :
-  nanmin (N:=NumRN) (select (b :: m) (V (x :: xs))) = Ok (opt_min (pick (b :: m) (x :: xs))).
+  nanmin (N:=NumER) (select (b :: m) (V (x :: xs))) = Ok (toER (opt_min (pick (b :: m) (x :: xs)))).
 Proof.
   rewrite select_V. unfold nanmin, reduce1, selV. cbn [map2 pick]. f_equal.
-  change (map2 (fun (b0 : bool) x0 => if b0 then Some x0 else None) m xs) with (selV m xs).
-  rewrite fold_fmin_selV. destruct b; reflexivity.
+  change (map2 (fun (b0 : bool) x0 => if b0 then Fin x0 else NaN) m xs) with (selV m xs).
+  destruct b; [rewrite fold_fmin_selV_Fin; reflexivity | apply fold_fmin_selV_NaN].
 Qed.
 
 (* -------- facts about pick *)
@@ -577,9 +590,17 @@ Qed.
 (* The five defuzzifiers on vectors of reals                                                         *)
 
 (* ---- Centroid *)
-Theorem centroid_V xs ys :
-  centroid (N:=NumRN) (V xs) (V ys) = if Req_EM_T (Rsum ys) 0 then None else Some (dot xs ys / Rsum ys).
-Proof. unfold centroid. rewrite map2_mul_V, !np_sum_V. reflexivity. Qed.
+Theorem centroid_V xs ys : Forall (fun y => 0 <= y) ys ->
+  centroid (N:=NumER) (V xs) (V ys) =
+  toER (if Req_EM_T (Rsum ys) 0 then None else Some (dot xs ys / Rsum ys)).
+Proof.
+  intros Hge. unfold centroid. rewrite map2_mul_V, !np_sum_V.
+  change (div (Fin ?a) (Fin ?b)) with (ERdiv (Fin a) (Fin b)).
+  destruct (Req_EM_T (Rsum ys) 0) as [E|E].
+  - rewrite E. fold (dot xs ys). rewrite (dot_zero_of_zeros xs ys) by (apply Rsum_nonneg_zero; assumption).
+    apply ERdiv_0_0.
+  - rewrite ERdiv_fin by exact E. reflexivity.
+Qed.
 
 (* ---- the maxima: mask of the sample points where the membership attains its positive maximum *)
 Definition max_mask (mus : list R) : list bool :=
@@ -589,7 +610,7 @@ Definition max_mask (mus : list R) : list bool :=
   end.
 Definition argmax_points (xs mus : list R) : list R := pick (max_mask mus) xs.
 
-Lemma maxima_mask_V m0 mt : maxima_mask (N:=NumRN) (V (m0 :: mt)) = Ok (max_mask (m0 :: mt)).
+Lemma maxima_mask_V m0 mt : maxima_mask (N:=NumER) (V (m0 :: mt)) = Ok (max_mask (m0 :: mt)).
 Proof.
   unfold maxima_mask. rewrite amax_V. cbn [bind]. f_equal. unfold V, max_mask. rewrite map_map. reflexivity.
 Qed.
@@ -598,19 +619,19 @@ Lemma max_mask_length mus : length (max_mask mus) = length mus.
 Proof. destruct mus as [|m0 mt]; [reflexivity|]. unfold max_mask. apply map_length. Qed.
 
 Theorem lom_V x xt m0 mt :
-  lom (N:=NumRN) (V (x :: xt)) (V (m0 :: mt)) = Ok (opt_max (argmax_points (x :: xt) (m0 :: mt))).
+  lom (N:=NumER) (V (x :: xt)) (V (m0 :: mt)) = Ok (toER (opt_max (argmax_points (x :: xt) (m0 :: mt)))).
 Proof.
   unfold lom. rewrite maxima_mask_V. cbn [bind]. unfold argmax_points.
   destruct (max_mask (m0 :: mt)) as [|b m] eqn:E; [discriminate E|]. apply nanmax_select.
 Qed.
 Theorem som_V x xt m0 mt :
-  som (N:=NumRN) (V (x :: xt)) (V (m0 :: mt)) = Ok (opt_min (argmax_points (x :: xt) (m0 :: mt))).
+  som (N:=NumER) (V (x :: xt)) (V (m0 :: mt)) = Ok (toER (opt_min (argmax_points (x :: xt) (m0 :: mt)))).
 Proof.
   unfold som. rewrite maxima_mask_V. cbn [bind]. unfold argmax_points.
   destruct (max_mask (m0 :: mt)) as [|b m] eqn:E; [discriminate E|]. apply nanmin_select.
 Qed.
 Theorem mom_V xs m0 mt :
-  mom (N:=NumRN) (V xs) (V (m0 :: mt)) = Ok (opt_mean (argmax_points xs (m0 :: mt))).
+  mom (N:=NumER) (V xs) (V (m0 :: mt)) = Ok (toER (opt_mean (argmax_points xs (m0 :: mt)))).
 Proof. unfold mom. rewrite maxima_mask_V. cbn [bind]. f_equal. apply nanmean_select. Qed.
 
 (* what the arg-set is: the sample points x_i with mu_i = max mu and max mu > 0 *)
@@ -672,29 +693,32 @@ Definition bisector_points (xs mus : list R) : list R := pick (min_mask (bisecto
 Lemma bisector_dist_length mus : length (bisector_dist mus) = length mus.
 Proof. unfold bisector_dist. rewrite map_length. apply psums_length. Qed.
 
-Lemma bisector_area_V mus : mus <> [] ->
-  bisector_area (N:=NumRN) (V mus) =
-  Ok (map (fun c => if Req_EM_T (Rsum mus) 0 then None else Some (Rabs (c / Rsum mus - 1 / 2))) (psums 0 mus)).
+Lemma bisector_area_V mus : mus <> [] -> Forall (fun y => 0 <= y) mus ->
+  bisector_area (N:=NumER) (V mus) =
+  Ok (if Req_EM_T (Rsum mus) 0 then map (fun _ => NaN) (psums 0 mus) else V (bisector_dist mus)).
 Proof.
-  intros Hne. unfold bisector_area. rewrite nancumsum_V, last_psums by exact Hne. cbn [bind].
-  rewrite Rplus_0_l, half_RN. f_equal. unfold V. rewrite map_map. apply map_ext. intros c. unRN.
-  destruct (Req_EM_T (Rsum mus) 0); reflexivity.
+  intros Hne Hge. unfold bisector_area. rewrite nancumsum_V, last_psums by exact Hne. cbn [bind].
+  rewrite Rplus_0_l, half_ER. f_equal. unfold V, bisector_dist. rewrite !map_map.
+  destruct (Req_EM_T (Rsum mus) 0) as [E|E].
+  - assert (Hz : Forall (fun c => c = 0) (psums 0 mus)) by (apply psums_all_zero, Rsum_nonneg_zero; assumption).
+    apply map_ext_in. intros c Hc. rewrite Forall_forall in Hz. rewrite (Hz c Hc), E.
+    change (div (Fin 0) (Fin 0)) with (ERdiv (Fin 0) (Fin 0)). rewrite ERdiv_0_0. reflexivity.
+  - apply map_ext. intros c. change (div (Fin c) (Fin (Rsum mus))) with (ERdiv (Fin c) (Fin (Rsum mus))).
+    rewrite ERdiv_fin by exact E. reflexivity.
 Qed.
 
-Theorem bisector_V xs mus : mus <> [] ->
-  bisector (N:=NumRN) (V xs) (V mus) =
-  Ok (if Req_EM_T (Rsum mus) 0 then None else opt_mean (bisector_points xs mus)).
+Theorem bisector_V xs mus : mus <> [] -> Forall (fun y => 0 <= y) mus ->
+  bisector (N:=NumER) (V xs) (V mus) =
+  Ok (toER (if Req_EM_T (Rsum mus) 0 then None else opt_mean (bisector_points xs mus))).
 Proof.
-  intros Hne. unfold bisector. rewrite bisector_area_V by exact Hne. cbn [bind].
+  intros Hne Hge. unfold bisector. rewrite bisector_area_V by assumption. cbn [bind].
   destruct (Req_EM_T (Rsum mus) 0) as [E|E].
   - destruct mus as [|m0 mt]; [contradiction|]. cbn [psums map amin reduce1 bind].
-    rewrite fold_nmin_None. cbn [bind]. f_equal.
+    rewrite fold_nmin_NaN. cbn [bind]. f_equal.
     rewrite nanmean_select. rewrite pick_all_false; [reflexivity|].
     constructor; [reflexivity|]. apply Forall_forall. intros b Hb.
-    apply in_map_iff in Hb. destruct Hb as [a [<- _]]. unRN. destruct a; reflexivity.
-  - change (map (fun c => Some (Rabs (c / Rsum mus - 1 / 2))) (psums 0 mus)) with
-      (map Some (map (fun c => Rabs (c / Rsum mus - 1 / 2)) (psums 0 mus))) || rewrite <- (map_map (fun c => Rabs (c / Rsum mus - 1 / 2)) Some).
-    fold (bisector_dist mus). fold (V (bisector_dist mus)). unfold bisector_points.
+    apply in_map_iff in Hb. destruct Hb as [a [<- _]]. destruct a; reflexivity.
+  - unfold bisector_points.
     destruct (bisector_dist mus) as [|d0 dt] eqn:Ed.
     { exfalso. apply (f_equal (@length R)) in Ed. rewrite bisector_dist_length in Ed. destruct mus; [contradiction | discriminate]. }
     rewrite amin_V. cbn [bind]. f_equal. rewrite <- nanmean_select. f_equal. f_equal.
@@ -739,7 +763,7 @@ Qed.
 
 (* ---- one row, any kind *)
 Lemma defuzzify_samples_V k xs mus : length xs = length mus ->
-  defuzzify_samples (N:=NumRN) k (V xs) (V mus) =
+  defuzzify_samples (N:=NumER) k (V xs) (V mus) =
   match k with
   | Bisector => bisector (V xs) (V mus)
   | Centroid => Ok (centroid (V xs) (V mus))
@@ -750,7 +774,7 @@ Lemma defuzzify_samples_V k xs mus : length xs = length mus ->
 Proof. intros Hlen. unfold defuzzify_samples. rewrite !V_length, Hlen, Nat.eqb_refl. reflexivity. Qed.
 
 (* the value each defuzzifier returns on real samples, as a function of the reals only *)
-Definition defuzz_value (k : integral_kind) (xs mus : list R) : RN :=
+Definition defuzz_value (k : integral_kind) (xs mus : list R) : option R :=
   match k with
   | Bisector => if Req_EM_T (Rsum mus) 0 then None else opt_mean (bisector_points xs mus)
   | Centroid => if Req_EM_T (Rsum mus) 0 then None else Some (dot xs mus / Rsum mus)
@@ -760,26 +784,31 @@ Definition defuzz_value (k : integral_kind) (xs mus : list R) : RN :=
   end.
 
 Theorem defuzzify_samples_value k xs mus : length xs = length mus -> mus <> [] ->
-  defuzzify_samples (N:=NumRN) k (V xs) (V mus) = Ok (defuzz_value k xs mus).
+  Forall (fun y => 0 <= y) mus ->
+  defuzzify_samples (N:=NumER) k (V xs) (V mus) = Ok (toER (defuzz_value k xs mus)).
 Proof.
-  intros Hlen Hne. rewrite defuzzify_samples_V by exact Hlen.
+  intros Hlen Hne Hge. rewrite defuzzify_samples_V by exact Hlen.
   destruct mus as [|m0 mt]; [contradiction|]. destruct xs as [|x xt]; [discriminate|].
   destruct k; cbn [defuzz_value].
-  - apply bisector_V. discriminate.
-  - rewrite centroid_V. reflexivity.
+  - apply bisector_V; [discriminate | exact Hge].
+  - rewrite centroid_V by exact Hge. reflexivity.
   - apply lom_V.
   - apply mom_V.
   - apply som_V.
 Qed.
 
-Theorem defuzzify_value k r mu lo hi : (0 < r)%nat ->
-  defuzzify (N:=NumRN) k r (liftf mu) (Some lo) (Some hi) =
-  Ok (defuzz_value k (Rmidpoints lo hi r) (map mu (Rmidpoints lo hi r))).
+Lemma map_nonneg (mu : R -> R) xs : (forall x, 0 <= mu x) -> Forall (fun y => 0 <= y) (map mu xs).
+Proof. intros H. apply Forall_forall. intros y Hy. apply in_map_iff in Hy. destruct Hy as [x [<- _]]. apply H. Qed.
+
+Theorem defuzzify_value k r mu lo hi : (0 < r)%nat -> (forall x, 0 <= mu x) ->
+  defuzzify (N:=NumER) k r (liftf mu) (Fin lo) (Fin hi) =
+  Ok (toER (defuzz_value k (Rmidpoints lo hi r) (map mu (Rmidpoints lo hi r)))).
 Proof.
-  intros Hr. unfold defuzzify. rewrite midpoints_RN by exact Hr. cbn [bind]. rewrite map_liftf_V.
+  intros Hr Hmu. unfold defuzzify. rewrite midpoints_ER by exact Hr. cbn [bind]. rewrite map_liftf_V.
   apply defuzzify_samples_value.
   - rewrite map_length. reflexivity.
   - intros E. apply (f_equal (@length R)) in E. rewrite map_length, Rmidpoints_length in E. simpl in E. lia.
+  - apply map_nonneg. exact Hmu.
 Qed.
 
 Theorem defuzzify_zero_resolution {T} {N : Num T} k (mu : T -> T) lo hi : defuzzify k 0 mu lo hi = Err EInternal.
@@ -884,18 +913,19 @@ Proof.
   cbn [lift1]. f_equal. rewrite dot_translate by exact Hlen. field. exact H0.
 Qed.
 
-Theorem centroid_translate lo hi r mu c : (0 < r)%nat ->
-  defuzzify (N:=NumRN) Centroid r (liftf (fun x => mu (x - c))) (Some (lo + c)) (Some (hi + c)) =
-  match defuzzify (N:=NumRN) Centroid r (liftf mu) (Some lo) (Some hi) with
-  | Ok z => Ok (lift1 (fun z => z + c) z)
+Theorem centroid_translate lo hi r mu c : (0 < r)%nat -> (forall x, 0 <= mu x) ->
+  defuzzify (N:=NumER) Centroid r (liftf (fun x => mu (x - c))) (Fin (lo + c)) (Fin (hi + c)) =
+  match defuzzify (N:=NumER) Centroid r (liftf mu) (Fin lo) (Fin hi) with
+  | Ok z => Ok (add z (Fin c))
   | Err e => Err e
   end.
 Proof.
-  intros Hr. rewrite !defuzzify_value by exact Hr. f_equal.
+  intros Hr Hmu. rewrite !defuzzify_value by (try exact Hr; intros; apply Hmu). f_equal.
   rewrite Rmidpoints_translate, map_map.
   replace (map (fun x => mu (x + c - c)) (Rmidpoints lo hi r)) with (map mu (Rmidpoints lo hi r))
     by (apply map_ext; intros x; f_equal; lra).
-  apply centroid_value_translate. rewrite map_length. reflexivity.
+  rewrite centroid_value_translate by (rewrite map_length; reflexivity).
+  destruct (defuzz_value Centroid (Rmidpoints lo hi r) (map mu (Rmidpoints lo hi r))); reflexivity.
 Qed.
 
 (* ---- batch = rows (by construction of the model; that the implementation's batch results equal its per-row results
@@ -911,16 +941,14 @@ Qed.
 (* ------------------------------------------------------------------------------------------------ *)
 (* Top level: IntegralDefuzzifier.defuzzify on a real membership function                            *)
 
-Lemma map_nonneg (mu : R -> R) xs : (forall x, 0 <= mu x) -> Forall (fun y => 0 <= y) (map mu xs).
-Proof. intros H. apply Forall_forall. intros y Hy. apply in_map_iff in Hy. destruct Hy as [x [<- _]]. apply H. Qed.
-
 Lemma Forall_map_eq0 (mu : R -> R) xs : Forall (fun y => y = 0) (map mu xs) <-> Forall (fun x => mu x = 0) xs.
 Proof. rewrite Forall_map. reflexivity. Qed.
 
 Theorem defuzzify_in_range k r mu lo hi z : (0 < r)%nat -> lo <= hi -> (forall x, 0 <= mu x) ->
-  defuzzify (N:=NumRN) k r (liftf mu) (Some lo) (Some hi) = Ok (Some z) -> lo <= z <= hi.
+  defuzzify (N:=NumER) k r (liftf mu) (Fin lo) (Fin hi) = Ok (Fin z) -> lo <= z <= hi.
 Proof.
-  intros Hr Hle Hmu. rewrite defuzzify_value by exact Hr. intros E. inversion E as [E'].
+  intros Hr Hle Hmu. rewrite defuzzify_value by assumption. intros E. inversion E as [E'].
+  apply toER_Fin in E'.
   apply (defuzz_value_in_range k lo hi _ _ z) in E'; [exact E' | | | ].
   - rewrite map_length. reflexivity.
   - apply Rmidpoints_in_range. exact Hle.
@@ -928,39 +956,41 @@ Proof.
 Qed.
 
 Theorem defuzzify_nan_iff k r mu lo hi : (0 < r)%nat -> (forall x, 0 <= mu x) ->
-  (defuzzify (N:=NumRN) k r (liftf mu) (Some lo) (Some hi) = Ok None <->
+  (defuzzify (N:=NumER) k r (liftf mu) (Fin lo) (Fin hi) = Ok NaN <->
    Forall (fun x => mu x = 0) (Rmidpoints lo hi r)).
 Proof.
-  intros Hr Hmu. rewrite defuzzify_value by exact Hr. rewrite <- Forall_map_eq0.
+  intros Hr Hmu. rewrite defuzzify_value by assumption. rewrite <- Forall_map_eq0.
   rewrite <- (defuzz_value_nan_iff k (Rmidpoints lo hi r) (map mu (Rmidpoints lo hi r))).
-  - split; [intros E; inversion E; reflexivity | intros E; rewrite E; reflexivity].
+  - split; [intros E; inversion E as [E']; apply toER_NaN in E'; exact E' | intros E; rewrite E; reflexivity].
   - rewrite map_length. reflexivity.
   - intros E. apply (f_equal (@length R)) in E. rewrite map_length, Rmidpoints_length in E. simpl in E. lia.
   - apply map_nonneg. exact Hmu.
 Qed.
 
-(* the result is never an error and, when some sample is positive, it is a number *)
+(* the result is never an error or an infinity and, when some sample is positive, it is a number *)
 Theorem defuzzify_defined k r mu lo hi : (0 < r)%nat -> (forall x, 0 <= mu x) ->
   Exists (fun x => 0 < mu x) (Rmidpoints lo hi r) ->
-  exists z, defuzzify (N:=NumRN) k r (liftf mu) (Some lo) (Some hi) = Ok (Some z).
+  exists z, defuzzify (N:=NumER) k r (liftf mu) (Fin lo) (Fin hi) = Ok (Fin z).
 Proof.
   intros Hr Hmu Hex.
-  destruct (defuzzify (N:=NumRN) k r (liftf mu) (Some lo) (Some hi)) as [[z|]|e] eqn:E.
-  - exists z. reflexivity.
-  - exfalso. apply (defuzzify_nan_iff k r mu lo hi Hr Hmu) in E.
-    apply Exists_exists in Hex. destruct Hex as [x [Hx Hp]]. rewrite Forall_forall in E.
-    specialize (E x Hx). lra.
-  - rewrite defuzzify_value in E by exact Hr. discriminate.
+  destruct (defuzz_value k (Rmidpoints lo hi r) (map mu (Rmidpoints lo hi r))) as [z|] eqn:E.
+  - exists z. rewrite defuzzify_value, E by assumption. reflexivity.
+  - exfalso. assert (H : defuzzify (N:=NumER) k r (liftf mu) (Fin lo) (Fin hi) = Ok NaN)
+      by (rewrite defuzzify_value, E by assumption; reflexivity).
+    apply (defuzzify_nan_iff k r mu lo hi Hr Hmu) in H.
+    apply Exists_exists in Hex. destruct Hex as [x [Hx Hp]]. rewrite Forall_forall in H.
+    specialize (H x Hx). lra.
 Qed.
 
-Theorem defuzzify_som_le_mom_le_lom r mu lo hi s m l : (0 < r)%nat ->
-  defuzzify (N:=NumRN) SmallestOfMaximum r (liftf mu) (Some lo) (Some hi) = Ok (Some s) ->
-  defuzzify (N:=NumRN) MeanOfMaximum r (liftf mu) (Some lo) (Some hi) = Ok (Some m) ->
-  defuzzify (N:=NumRN) LargestOfMaximum r (liftf mu) (Some lo) (Some hi) = Ok (Some l) ->
+Theorem defuzzify_som_le_mom_le_lom r mu lo hi s m l : (0 < r)%nat -> (forall x, 0 <= mu x) ->
+  defuzzify (N:=NumER) SmallestOfMaximum r (liftf mu) (Fin lo) (Fin hi) = Ok (Fin s) ->
+  defuzzify (N:=NumER) MeanOfMaximum r (liftf mu) (Fin lo) (Fin hi) = Ok (Fin m) ->
+  defuzzify (N:=NumER) LargestOfMaximum r (liftf mu) (Fin lo) (Fin hi) = Ok (Fin l) ->
   s <= m <= l.
 Proof.
-  intros Hr. rewrite !defuzzify_value by exact Hr. intros Es Em El.
+  intros Hr Hmu. rewrite !defuzzify_value by assumption. intros Es Em El.
   inversion Es as [Es']; inversion Em as [Em']; inversion El as [El'].
+  apply toER_Fin in Es', Em', El'.
   exact (som_le_mom_le_lom_value _ _ s m l Es' Em' El').
 Qed.
 
@@ -1030,8 +1060,9 @@ Proof.
   reflexivity.
 Qed.
 
-Lemma ex_defuzzify k : defuzzify (N:=NumRN) k 4 (liftf ex_mu) (Some 0) (Some 4) = Ok (defuzz_value k ex_xs ex_mus).
-Proof. rewrite defuzzify_value by lia. rewrite ex_midpoints, ex_samples. reflexivity. Qed.
+Lemma ex_defuzzify k :
+  defuzzify (N:=NumER) k 4 (liftf ex_mu) (Fin 0) (Fin 4) = Ok (toER (defuzz_value k ex_xs ex_mus)).
+Proof. rewrite defuzzify_value by (try lia; exact ex_mu_nonneg). rewrite ex_midpoints, ex_samples. reflexivity. Qed.
 
 Lemma ex_positive : Exists (fun x => 0 < ex_mu x) (Rmidpoints 0 4 4).
 Proof.
